@@ -200,7 +200,7 @@ def run_job(spec):
                     first[0] = False
             return out
 
-        known_all = [k for k in spec.get("known", []) if k.get("harness") in (None, spec["harness"])]
+        known_all = [k for k in spec.get("known", []) if k.get("harness") is None or spec["harness"] in str(k["harness"]).split(",")]
         for r in explore(body, max_paths=H.max_paths):
             res["paths"] += 1
             if r.abort is not None:
